@@ -66,6 +66,8 @@ WRAP_RANDOM := -Wl,--wrap=random,--wrap=srandom,--wrap=rand,--wrap=srand
 EXTRA_c20 := wrap_random.o
 LDX_c20 := $(WRAP_RANDOM)
 WRAP_SCHED := -Wl,--wrap=pthread_spin_lock,--wrap=pthread_spin_unlock,--wrap=sem_post,--wrap=sem_trywait,--wrap=sem_wait,--wrap=sem_timedwait,--wrap=sem_getvalue
+EXTRA_c01 := vsched.o
+LDX_c01 := $(WRAP_SCHED)
 EXTRA_c19c := vsched.o
 LDX_c19c := $(WRAP_SCHED)
 EXTRA_c17 := wrap_random.o
